@@ -12,6 +12,8 @@ Oracle (independent: hashlib over the bytes the harness wrote + the generated di
  2. regenerating from scratch with a different listing/argument order gives byte-identical text.
  3. a further `update()` with the very same fetchable objects returns False, leaves bytes, inode and mtime_ns alone,
     its audit log contains no mutating event at all, and the caller's fetchables (chksums dicts) are unchanged.
+ 3b. one long-lived Manifest object whose properties were read before an update() must, after that update(), report
+    exactly what the file it just wrote states (first generation and the update after the edit).
  4. after the edit, `update()` returns True iff the expected content changed and the file then parses to the
     new expectation; thin mode without distfiles writes nothing.
  5. crash cases: `update()` onto the stale (or missing) Manifest is stopped before/after/with EIO at each
@@ -292,10 +294,18 @@ class Env:
         random.Random(seed).shuffle(l)
         return l
 
-    def update(self, case, pkgdir, dist, seed, fetchables=None):
+    def manifest(self, case, pkgdir):
+        return self.digest.Manifest(os.path.join(pkgdir, "Manifest"), thin=case["thin"], allow_missing=True)
+
+    @staticmethod
+    def view(m):
+        """what a Manifest object reports (parsing the file lazily and caching the result)"""
+        return _plain_parsed((m.distfiles, m.aux_files, m.ebuilds, m.misc))
+
+    def update(self, case, pkgdir, dist, seed, fetchables=None, manifest=None):
         """one Manifest.update() the way repo_operations drives it; the shuffle seed only picks orders.
         `fetchables`: re-use these objects (the caller's, as pmaint does for every package of a run)"""
-        m = self.digest.Manifest(os.path.join(pkgdir, "Manifest"), thin=case["thin"], allow_missing=True)
+        m = manifest if manifest is not None else self.manifest(case, pkgdir)
         with self.shuffled_scan(seed):
             # callers list 'size' first; the order of the other hash names is theirs (manifest-hashes in layout.conf)
             chfs = tuple(case["chfs"][:1] + self.reorder(case["chfs"][1:], seed))
@@ -418,18 +428,34 @@ def _check(ctx, env, case, pkgdir, tree1, tree2, exp1, exp2):
     _write_tree(pkgdir, tree1.items())
     writes1 = not (case["thin"] and not case["dist"])
 
-    def upd(dist, s, d=pkgdir, fetchables=None):
+    # one long-lived object, as the ebuild repository keeps per package: its view is read before and after updates
+    obj = env.manifest(case, pkgdir)
+
+    def upd(dist, s, d=pkgdir, fetchables=None, manifest=None):
         try:
-            return core.guarded(ctx, case, lambda: env.update(case, d, dist, s, fetchables), expected=(env.errors.ParseChksumError,))
+            return core.guarded(ctx, case, lambda: env.update(case, d, dist, s, fetchables, manifest), expected=(env.errors.ParseChksumError,))
         except env.errors.ParseChksumError as e:
             ctx.violation("update:parse-error", case, f"update() raised {e}")
             return core._CRASHED
 
-    # 1. generate + parse back
-    r = upd(case["dist"], seed)
+    def same_object_view(when):
+        """the object that generated the Manifest must report what the file it wrote states"""
+        raw = _read_bytes(mpath)
+        ref = my_parse(raw.decode("utf8", "replace")) if raw is not None else {"DIST": {}, "AUX": {}, "EBUILD": {}, "MISC": {}}
+        got = core.guarded(ctx, case, lambda: env.view(obj))
+        if core.crashed(got) or ref is None:
+            return
+        b = _first_diff(ref, got)
+        if b:
+            ctx.violation(f"object-view:stale-after-update:{b.split('-')[0]}", case, f"{when}: the updating Manifest object reports {got!r}, its file states {ref!r}")
+
+    # 1. generate + parse back (the object has already looked at the -- missing -- file, as the manifest command does)
+    same_object_view("before the first update")
+    r = upd(case["dist"], seed, manifest=obj)
     if core.crashed(r):
         return evals
     evals += 1
+    same_object_view("after the first update")
     if bool(r) != writes1:
         ctx.violation("update:return-value", case, f"first update() returned {r!r}, expected {writes1}")
     if not writes1:
@@ -481,10 +507,12 @@ def _check(ctx, env, case, pkgdir, tree1, tree2, exp1, exp2):
     writes2 = not (case["thin"] and not dist2) and (exp2 != exp1 or not writes1)
     if case["crash"]:
         return evals + _crash_part(ctx, env, case, pkgdir, dist2, old, exp2, writes2)
-    r = upd(dist2, seed + 4)
+    same_object_view("before the update after the edit")
+    r = upd(dist2, seed + 4, manifest=obj)
     if core.crashed(r):
         return evals
     evals += 1
+    same_object_view("after the update after the edit")
     if bool(r) != writes2:
         ctx.violation("update:return-value", case, f"update() after the edit returned {r!r}, expected {writes2}")
     if writes2:
